@@ -875,7 +875,7 @@ func TestC07(t *testing.T) {
 
 	x := &runner{r: r, nc: &notCompared{m: map[string]int{}}, perKind: map[string]int{}, perVer: map[int]int{}}
 	vers := gatevanilla.Versions()
-	base := r.N(14, 700)
+	base := r.N(14, 3500)
 
 	var wg sync.WaitGroup
 	for _, k := range kinds() {
@@ -917,7 +917,7 @@ func TestC07(t *testing.T) {
 	go func() {
 		defer wg.Done()
 		rng := r.Rng("upsert")
-		perms := r.N(2, 60)
+		perms := r.N(2, 250)
 		permSeen := map[string]struct{}{}
 		for _, pv := range vers {
 			p := int(pv)
